@@ -58,6 +58,7 @@ class FLoadModel(Model):
 
         self.bus = ExtParam(model='PQ', src='bus', indexer=self.pq,
                             export=False,
+                            vtype=str,
                             )
 
         self.p0 = ExtService(model='PQ', src='Ppf', indexer=self.pq,
